@@ -133,6 +133,7 @@ type cluster struct {
 	nRegs    int
 	nReads   int
 	nFaults  int
+	nDeletes int
 	attachAt map[int]int // be seq -> number of writes issued when it was attached
 	synced   map[int]bool
 	failedBE map[int]bool // be seq -> failed a call by script
